@@ -30,6 +30,7 @@ func checkC20(c *Ctx) {
 		c20Budget(c, p, copies)
 		c20Units(c, p)
 		c20Tables(c, p)
+		c20UnitHasNumber(c, p)
 	}
 	c.Floor["R20.1"] = 12
 	c.Floor["R20.2"] = 7
@@ -716,4 +717,192 @@ func c20Tables(c *Ctx, p *Prog) {
 	if n == 0 {
 		r.Ok("R20.1", "table:none", "-", "no package-level table of the duration helpers is indexed at a computed position")
 	}
+}
+
+// c20UnitHasNumber (R20.2): a unit suffix never stands alone: once the formatter has written a unit ("s", "ms", "h", ..)
+// every path on writes that component's integer digits (the digit writer fmtInt, or a helper that writes digits on all
+// of its paths) before the next unit or the end of the text. A lone suffix glues onto the component to its left
+// ("5m" + "s" reads back as 5 milliseconds), which the parser accepts - with another value.
+func c20UnitHasNumber(c *Ctx, p *Prog) {
+	r := c.R
+	sdf := p.Func(p.Times, "shortDurFormat")
+	fmtInt := p.Func(p.Times, "fmtInt")
+	if sdf == nil || fmtInt == nil {
+		r.Unk("R20.2", "unit-has-number", "-", "shortDurFormat / fmtInt not found")
+		return
+	}
+	isUnitStore := func(in ssa.Instruction) bool {
+		switch y := in.(type) {
+		case *ssa.Store:
+			if _, ok := y.Addr.(*ssa.IndexAddr); ok {
+				if v, ok := constInt(y.Val); ok {
+					return (v >= 'a' && v <= 'z') || v >= 0x80
+				}
+			}
+		case *ssa.Call:
+			if isBuiltinCall(y, "copy") {
+				if cv, ok := strip(y.Common().Args[1]).(*ssa.Const); ok && cv.Value != nil && cv.Value.Kind() == constant.String {
+					for _, ch := range constant.StringVal(cv.Value) {
+						if (ch >= 'a' && ch <= 'z') || ch >= 0x80 {
+							return true
+						}
+					}
+				}
+			}
+		}
+		return false
+	}
+	digitFns := map[*ssa.Function]bool{fmtInt: true}
+	isDigit := func(in ssa.Instruction) bool {
+		switch y := in.(type) {
+		case *ssa.Store:
+			if _, ok := y.Addr.(*ssa.IndexAddr); ok {
+				if v, ok := constInt(y.Val); ok {
+					return v >= '0' && v <= '9'
+				}
+			}
+		case *ssa.Call:
+			return digitFns[calleeOf(y)]
+		}
+		return false
+	}
+	// first event of a block from instruction index `from`: 'd' digit, 'u' unit, 0 none
+	firstEvent := func(b *ssa.BasicBlock, from int) byte {
+		for i := from; i < len(b.Instrs); i++ {
+			if isDigit(b.Instrs[i]) {
+				return 'd'
+			}
+			if isUnitStore(b.Instrs[i]) {
+				return 'u'
+			}
+		}
+		return 0
+	}
+	tree := []*ssa.Function{}
+	for fn := range staticReach([]*ssa.Function{sdf}, func(f *ssa.Function) bool { return f.Pkg != p.Times || f == fmtInt || nm(f) == "fmtFrac" }) {
+		if fn != fmtInt && nm(fn) != "fmtFrac" {
+			tree = append(tree, fn)
+		}
+	}
+	sort.Slice(tree, func(i, j int) bool { return shortName(tree[i]) < shortName(tree[j]) })
+	// helpers that write digits on all of their paths
+	for changed := true; changed; {
+		changed = false
+		for _, fn := range tree {
+			if digitFns[fn] || fn == sdf || len(fn.Blocks) == 0 {
+				continue
+			}
+			all := true
+			seen := map[*ssa.BasicBlock]bool{}
+			var dfs func(b *ssa.BasicBlock)
+			dfs = func(b *ssa.BasicBlock) {
+				if seen[b] || !all {
+					return
+				}
+				seen[b] = true
+				if firstEvent(b, 0) == 'd' {
+					return
+				}
+				if _, isRet := b.Instrs[len(b.Instrs)-1].(*ssa.Return); isRet {
+					all = false
+					return
+				}
+				for _, s := range b.Succs {
+					dfs(s)
+				}
+			}
+			dfs(fn.Blocks[0])
+			if all {
+				digitFns[fn] = true
+				changed = true
+			}
+		}
+	}
+	n := 0
+	var bad []string
+	for _, fn := range tree {
+		for _, b := range fn.Blocks {
+			last := -1
+			for i, in := range b.Instrs {
+				if isUnitStore(in) {
+					last = i
+				}
+			}
+			if last < 0 {
+				continue
+			}
+			n++
+			if firstEvent(b, last+1) == 'd' {
+				continue
+			}
+			// explore from the block's successors up to the next unit-writing block / the return, remembering whether
+			// digits were written on the way. A next unit reached both with and without digits (or a return reached
+			// without) is a number that can be skipped; a next unit never reached with digits is the second letter of
+			// a multi-letter unit ("s" then "m" = "ms").
+			type st struct {
+				b *ssa.BasicBlock
+				d bool
+			}
+			seen := map[st]bool{}
+			reached := map[*ssa.BasicBlock][2]bool{}
+			lone := ""
+			var dfs func(x *ssa.BasicBlock, d bool)
+			dfs = func(x *ssa.BasicBlock, d bool) {
+				if seen[st{x, d}] || lone != "" {
+					return
+				}
+				seen[st{x, d}] = true
+				switch firstEvent(x, 0) {
+				case 'u':
+					rr := reached[x]
+					if d {
+						rr[1] = true
+					} else {
+						rr[0] = true
+					}
+					reached[x] = rr
+					return
+				case 'd':
+					d = true
+					for _, in := range x.Instrs {
+						if isUnitStore(in) {
+							return // a new component starts here, after digits
+						}
+					}
+				}
+				if ret, isRet := x.Instrs[len(x.Instrs)-1].(*ssa.Return); isRet {
+					if !d {
+						lone = "the return at " + p.Pos(instrPos(ret))
+					}
+					return
+				}
+				for _, s := range x.Succs {
+					dfs(s, d)
+				}
+			}
+			if _, isRet := b.Instrs[len(b.Instrs)-1].(*ssa.Return); isRet {
+				lone = "the return at " + p.Pos(instrPos(b.Instrs[len(b.Instrs)-1]))
+			}
+			for _, s := range b.Succs {
+				dfs(s, false)
+			}
+			if lone == "" {
+				for x, rr := range reached {
+					if rr[0] && rr[1] {
+						lone = "the next unit at " + p.Pos(instrPos(x.Instrs[0])) + " both with and"
+					}
+				}
+			}
+			if lone != "" {
+				bad = append(bad, shortName(fn)+": unit written at "+p.Pos(instrPos(b.Instrs[last]))+" reaches "+lone+" with no digits written")
+			}
+		}
+	}
+	sort.Strings(bad)
+	if n < 1 {
+		r.Unk("R20.2", "unit-has-number", p.FuncPos(sdf), "no unit-writing block recognised in the formatter (%d)", n)
+		return
+	}
+	r.Check(len(bad) == 0, "R20.2", "unit-has-number", p.FuncPos(sdf), fmt.Sprintf("each of the %d unit-writing blocks is followed by its integer digits on every path", n),
+		"a unit suffix can be left without its number ("+strings.Join(bad, "; ")+"): the lone suffix glues onto the component before it and the text parses back as another duration")
 }
